@@ -9,7 +9,8 @@ import numpy as np
 from .. import valuecheck
 from ..compare import same
 
-REQUIRED = ["step_inv", "run_inv", "ids_faithful", "without_pin_ids_collide", "flow_facts"]
+REQUIRED = ["step_inv", "run_inv", "ids_faithful", "without_pin_ids_collide", "flow_facts",
+            "all_kinds_memoize", "second_reference_shares", "first_reference_memoized"]
 MUTABLE = (list, dict, set, bytearray, np.ndarray)
 
 
